@@ -36,6 +36,7 @@ fn main() {
         }
         i += 1;
     }
+    std::env::set_var("VERIF_TIER_INTERNAL", tier.name());
     let code = match args[1].as_str() {
         "replay" => props::replay::run(&args[2]),
         id => props::run(id, tier),
